@@ -23,6 +23,7 @@ import json
 import os
 import re
 import subprocess
+import time
 
 import vlib
 
@@ -429,10 +430,25 @@ def _reproduce1(ctx, st, font, bad, events_of_font, key=None):
         a, b = (ops + ops)[:2]
         case = {"id": 900001, "n": 2, "k": 1, "maxpar": 2, "prog": [[a], [b]], "fresh": True, "cold": was_cold,
                 "sched": [["S", 1], ["S", 2], ["F", 1], ["F", 2]]}
-        evs, races, fatal = _single_case_trace(ctx, st, font, case, 12, "race", cold=was_cold)
+        # (the detector misses a race when the two calls happen to synchronise, e.g. through a sync.Pool of
+        # the standard library: try both orders, more goroutines, then the original cases of that process)
+        shapes = [([[a], [b]], [["S", 1], ["S", 2], ["F", 1], ["F", 2]]),
+                  ([[b], [a]], [["S", 1], ["S", 2], ["F", 1], ["F", 2]]),
+                  ([[a, b], [b, a], [a, a], [b, b]],
+                   [["S", 1], ["S", 2], ["S", 3], ["S", 4], ["F", 1], ["S", 1], ["F", 2], ["S", 2], ["F", 3], ["S", 3],
+                    ["F", 4], ["S", 4], ["F", 1], ["F", 2], ["F", 3], ["F", 4]])]
+        races, fatal = [], None
+        for attempt in range(2):
+            for prog, sched in shapes:
+                case = {"id": 900001, "n": len(prog), "k": len(prog[0]), "maxpar": len(prog), "prog": prog,
+                        "fresh": True, "cold": was_cold, "sched": sched}
+                evs, races, fatal = _single_case_trace(ctx, st, font, case, 6, "race", cold=was_cold)
+                if races or fatal:
+                    break
+            if races or fatal:
+                break
         if not races and not fatal:
-            # fall back to the original cases of that process
-            orig = (st.cases_by_key.get(key) or [c for c in st.cases.values() if c["font"] == font])[:8]
+            orig = (st.cases_by_key.get(key) or [c for c in st.cases.values() if c["font"] == font])[:30]
             for c in orig:
                 evs, races, fatal = _single_case_trace(ctx, st, font, c, 2, "race", cold=was_cold)
                 if races or fatal:
@@ -461,7 +477,7 @@ def _reproduce1(ctx, st, font, bad, events_of_font, key=None):
                 # the operation is not a function when run alone: sample its run-alone results on every font
                 others = [f for f in st.fonts if f != font and bad["op"] in st.fonts[f]["ops"]
                           and (f, bad["op"]) not in st.alone_done]
-                with concurrent.futures.ThreadPoolExecutor(max_workers=max(2, min(8, ctx.workers // 2))) as ex:
+                with concurrent.futures.ThreadPoolExecutor(max_workers=max(2, min(8, ctx.workers))) as ex:
                     list(ex.map(lambda f: _alone(ctx, st, f, bad["op"]), others))
                 return False     # caller re-validates with the larger run-alone sets
         evs, races, fatal = _single_case_trace(ctx, st, font, case, 25, kind, cold=bool(case.get("cold")))
@@ -551,11 +567,17 @@ def run(ctx):
     warm = collections.defaultdict(list)     # race build, after the sequential phase
     plain = collections.defaultdict(list)    # plain build: the same call hammered, repeated (results only)
     coldp = []                               # (font, op, [case]): race build, a process of its own, cases first
+    rep_plain = ctx.pick(1, 4)
+    loop_ms = ctx.pick(12, 30)
     for i, c in enumerate(general):
         f = ids[i % len(ids)]
         warm[f].append(adopt(c, f, fresh=(i // len(ids)) % 2 == 0))   # every other case: a never used instance
-    rep_plain = ctx.pick(1, 4)
-    loop_ms = ctx.pick(12, 30)
+    # storms: the 16-goroutine behaviours with the most different operations, on every font, every call repeated
+    # in a tight loop (plain build, results only)
+    big = sorted([c for c in general if c["n"] >= 8], key=lambda c: -len(set(o for p in c["prog"] for o in p)))
+    for f in ids:
+        for c in big[:ctx.pick(3, 8)]:
+            plain[f].append(adopt(c, f, fresh=True, repeat=rep_plain, loop_ms=loop_ms))
     for i, c in enumerate(pairs):
         f = ids[i % len(ids)]
         warm[f].append(adopt(c, f, fresh=(i // len(ids)) % 2 == 1))
@@ -598,13 +620,18 @@ def run(ctx):
             cp = base + ".cases"
             vlib.write_ndjson(cp, job["cases"])
         rl = (base + ".race") if job["race"] else None
+        t0 = time.time()
         fatal = _run_font(ctx, job["bin"], job["font"], cp, tp, job["reps"], racelog=rl, cold=job["cold"])
+        job["wall"] = round(time.time() - t0, 2)
         return job, tp, fatal, (_parse_races(rl) if rl else [])
 
     traces = {}
     nraces = 0
-    with concurrent.futures.ThreadPoolExecutor(max_workers=max(2, min(8, ctx.workers // 2))) as ex:
+    with concurrent.futures.ThreadPoolExecutor(max_workers=max(2, min(8, ctx.workers))) as ex:
         results = list(ex.map(work, jobs))
+    slow = sorted(jobs, key=lambda j: -j.get("wall", 0))[:6]
+    ctx.log("harness: %d processes, %.1fs of process time; slowest: %s" % (
+        len(jobs), sum(j.get("wall", 0) for j in jobs), ", ".join("%s %.1fs" % (j["key"], j["wall"]) for j in slow)))
     for job, tp, fatal, races in results:
         key, f = job["key"], job["font"]
         if fatal:
